@@ -686,7 +686,37 @@ type c13run struct {
 func (r *c13run) skip(why string) { r.rep.Inc("skipped_"+why, 1) }
 
 // tuple evaluates every carrier x stage of one (value, constraint, keyword).
+// c13dirty leaves behind, on the pooled validators, what validations OUTSIDE the property's domain
+// leave: constraints that the declared type/format cannot carry (an int32 parameter with maximum 1.5,
+// a bound beyond int32, a fractional multipleOf on an integer). Their own outcome is not judged; the
+// in-domain cases that follow must still get exact verdicts.
+func c13dirty() {
+	defer func() {
+		if recover() != nil {
+			resetPools()
+		}
+	}()
+	for _, def := range []string{
+		`{"name":"d","in":"query","type":"integer","format":"int32","maximum":1.5}`,
+		`{"name":"d","in":"query","type":"integer","format":"int32","minimum":-3000000000,"multipleOf":0.5}`,
+		`{"name":"d","in":"query","type":"array","items":{"type":"integer","format":"int32","maximum":3000000000}}`,
+	} {
+		p, err := parseParam(def)
+		if err != nil {
+			continue
+		}
+		var v any = int32(1)
+		if p.Type == "array" {
+			v = []int32{1}
+		}
+		validate.NewParamValidator(p, strfmt.Default, validate.WithRecycleValidators(true)).Validate(v)
+	}
+	sch, _ := parseSpecSchema(`{"type":"integer","format":"int32","maximum":1.5,"multipleOf":0.5}`)
+	_ = validate.AgainstSchema(sch, int32(1), strfmt.Default)
+}
+
 func (r *c13run) tuple(k c13kw, v, c *c13num) {
+	c13dirty()
 	// ---- domain of the tuple
 	if !c.F64ok {
 		r.skip("constraint_beyond_2^53_or_not_a_float64")
@@ -774,11 +804,20 @@ func (r *c13run) tuple(k c13kw, v, c *c13num) {
 			fam := c13family(carrier)
 			// the same tuple already fails the same way in a deeper layer (whatever the carrier there):
 			// the outer entry points delegate to the inner ones, so this is the same defect seen again
-			if failed[dir] {
+			// (per carrier family: an integer carrier failing where only the float helpers fail is
+			// NOT explained by them — the integer paths use native arithmetic)
+			famKey := fam
+			if carrier == "json.Number" {
+				famKey = "float"
+				if st.Type == "integer" {
+					famKey = "int"
+				}
+			}
+			if failed[dir+"|"+famKey] {
 				r.rep.Inc("disagreements_explained_by_a_deeper_layer", 1)
 				continue
 			}
-			failedHere[dir] = true
+			failedHere[dir+"|"+famKey] = true
 			group := strings.Join([]string{st.Entry, st.Type, st.Format, k.String(), fam, c13class(c), dir}, " / ")
 			order := strings.Join([]string{c13numOrder(v), c13numOrder(c),
 				fmt.Sprintf("%02d/%02d", c13index(c13carriers, carrier), si)}, " ")
